@@ -55,6 +55,8 @@ class Rms:
         # after the optional cast the scale must have the type of `normalized` (tdt)
         eps_kind = rng.choice(["s", "s", "s", "v1", "m11", "input", "v2", "int"])
         sshape = rng.choice([[D], [D], [D], [1], [], xshape[-2:] if rank >= 2 else [D], list(xshape)])
+        if rng.random() < 0.06:
+            sshape = [2] + list(xshape)  # scale of higher rank than x (must not fuse)
         c = {
             "fam": "rms", "xshape": xshape, "xdt": xdt, "cast_in": cast_in, "cdt": cdt, "cast_out": cast_out,
             "tdt": tdt, "scale_cast": scale_cast, "sdt": sdt, "mul_order": rng.random() < 0.5,
@@ -408,7 +410,9 @@ class BiasGelu:
         rank = rng.choice([1, 2, 3, 3])
         full = [rng.choice([1, 2, 3]) for _ in range(rank - 1)] + [D]
         a_shape = rng.choice([full] * 5 + [[D], [1], full[:-1] + [1]])
-        b_shape = rng.choice([[D]] * 6 + [[1], [1, D], full, []])
+        b_shape = rng.choice([[D]] * 6 + [[1], [1, D], full, full, []])
+        if rng.random() < 0.12:  # the commuted rule: 1-D first operand, full-rank second
+            a_shape, b_shape = [D], (full if len(full) > 1 else [2, D])
         return {"fam": "biasgelu", "contrib": rng.random() < 0.5, "approx": rng.choice([None, None, "none", "tanh"]),
                 "a_shape": list(a_shape), "b_shape": list(b_shape), "dt": rng.choice(["f32", "f32", "f16"]),
                 "unknown_rank": rng.random() < 0.05}
@@ -675,7 +679,8 @@ class Rope:
         return {"fam": "rope", "B": B, "H": rng.choice([1, 2, 4]), "S": rng.choice([1, 3, 4]), "E": E, "rd": rd,
                 "partial": partial, "sl": [s1, e1, s2, e2], "pos_rank": rng.choice([1, 2, 2]) if B == 1 else 2,
                 "symB": rng.random() < 0.25, "symH": rng.random() < 0.08, "symE": rng.random() < 0.06,
-                "expand": rng.random() < 0.2, "cast": False, "x_rank3": False,
+                "expand": rng.random() < 0.2, "cast": rng.choice([None, None, None, "f32", "f16"]),
+                "pos_const": rng.random() < 0.12, "x_rank3": False,
                 "p_end1": rng.choice([rd] * 6 + [rd - 1, rd + 1]), "p_start2": rd,
                 "max_pos": rng.choice([None, None, 16])}
 
@@ -700,8 +705,13 @@ class Rope:
         xshape = [Bs, "H" if c["symH"] else H, S, "E" if c["symE"] else E]
         if c["x_rank3"]:
             xshape = xshape[1:]
-        x = g.inp("x", "f32", xshape)
-        pos = g.inp("position_ids", "i64", [Bs, S] if c["pos_rank"] == 2 else [S])
+        xdt = "f16" if c.get("cast") == "f16" else "f32"
+        x = g.inp("x", xdt, xshape)
+        if c.get("pos_const"):
+            pv = np.arange(S, dtype=np.int64)
+            pos = g.const(np.stack([pv + i for i in range(B)]) if c["pos_rank"] == 2 else pv, name="position_ids")
+        else:
+            pos = g.inp("position_ids", "i64", [Bs, S] if c["pos_rank"] == 2 else [S])
         half = rd // 2
         nf = max(1, (rd + 1) // 2) if rd % 2 else half
         inv = g.const((1.0 / (10.0 ** (np.arange(nf, dtype=np.float32) / max(nf, 1)))).reshape(1, nf, 1), name="inv_freq")
@@ -716,8 +726,12 @@ class Rope:
         if rd % 2:
             emb = g.op("Slice", emb, g.const(np.array([0], dtype=np.int64)), g.const(np.array([rd], dtype=np.int64)),
                        g.const(np.array([2], dtype=np.int64)))
-        cos = g.op("Unsqueeze", g.op("Cos", emb), g.const(np.array([1], dtype=np.int64)))
-        sin = g.op("Unsqueeze", g.op("Sin", emb), g.const(np.array([1], dtype=np.int64)))
+        cosv, sinv = g.op("Cos", emb), g.op("Sin", emb)
+        if c.get("cast"):
+            cosv = g.op("Cast", cosv, to=DT[c["cast"]])
+            sinv = g.op("Cast", sinv, to=DT[c["cast"]])
+        cos = g.op("Unsqueeze", cosv, g.const(np.array([1], dtype=np.int64)))
+        sin = g.op("Unsqueeze", sinv, g.const(np.array([1], dtype=np.int64)))
         ax3 = np.array([3], dtype=np.int64)
         one = np.array([1], dtype=np.int64)
 
@@ -737,7 +751,7 @@ class Rope:
         emb_x = g.op("Add", g.op("Mul", xe, cos), g.op("Mul", rot, sin), name=("emb" if c["partial"] else "out"))
         if c["partial"]:
             g.op("Concat", emb_x, xu, axis=-1, name="out")
-        g.out("out", "f32", None)
+        g.out("out", xdt, None)
         return g.model()
 
     @staticmethod
@@ -746,7 +760,8 @@ class Rope:
         return " ".join(["rope", f"x={dims_str(sh.get('x'))}", f"xe={dims_str(sh.get('xe' if c['partial'] else 'x'))}",
                          "sl=" + ",".join(map(str, c["sl"])), f"partial={b(c['partial'])}",
                          f"p_end1={c['p_end1']}", f"p_start2={c['p_start2']}", f"pos_rank={c['pos_rank']}",
-                         f"inv0={c['B'] if c['expand'] else 1}", f"odd={b(c['rd'] % 2)}"])
+                         f"inv0={c['B'] if c['expand'] else 1}", f"cast16={b(c.get('cast') == 'f16')}",
+                         f"pos_const={b(c.get('pos_const'))}", f"odd={b(c['rd'] % 2)}"])
 
     @staticmethod
     def fuse(model):
@@ -774,11 +789,11 @@ class Rope:
         pos = np.arange(S, dtype=np.int64)
         if c["pos_rank"] == 2:
             pos = np.stack([pos + i for i in range(B)])
-        return {"x": rand_arr(rng, xs, "f32"), "position_ids": pos}
+        return {"x": rand_arr(rng, xs, "f16" if c.get("cast") == "f16" else "f32"), "position_ids": pos}
 
     @staticmethod
     def out_dt(c):
-        return "f32"
+        return "f16" if c.get("cast") == "f16" else "f32"
 
 
 # =========================================================================== SDPA (+ replace_sdpa_by_mha)
@@ -1581,7 +1596,10 @@ class Pipe:
                 "key_t": rng.random() < 0.6, "sdpa_scale": rng.choice(["default", "default", "custom", "none"]),
                 "q_proj": rng.choice(["none", "scale", "bias", "scale_bias", "scale_bias", "bias_scale", "bias_scale"]),
                 "kb": rng.random() < 0.4, "vb": rng.random() < 0.4, "s": rng.choice([0.5, 2.0, 0.125]),
-                "mask": rng.random() < 0.3, "sym": rng.random() < 0.2}
+                "mask": rng.random() < 0.3, "sym": rng.random() < 0.2,
+                # a rank-1 mask is fine for SDPA but rejected by the MHA rules: fuse_xformers then takes the branch
+                # that skips mha_bias / attention, and sdpa_via_mha realises the SDPA at the end
+                "mask1d": rng.random() < 0.15}
 
     @staticmethod
     def build(c):
@@ -1614,7 +1632,9 @@ class Pipe:
         att = g.op("MatMul", qh, kt)
         if c["sdpa_scale"] != "none":
             att = g.op("Mul", att, g.const(np.array(1.0 / math.sqrt(Dh) if c["sdpa_scale"] == "default" else 0.3, dtype=np.float32)))
-        if c["mask"]:
+        if c.get("mask1d"):
+            att = g.op("Add", att, g.inp("mask", "f32", [S]))
+        elif c["mask"]:
             att = g.op("Add", att, g.inp("mask", "f32", [1, 1, S, S]))
         o = g.op("MatMul", g.op("Softmax", att, axis=-1), vh)
         g.op("Reshape", g.op("Transpose", o, perm=[0, 2, 1, 3]), shp([0, 0, D]), name="out")
@@ -1627,7 +1647,7 @@ class Pipe:
         return " ".join(["pipe", f"qm={dims_str(sh.get('qm'))}", f"heads={c['H']}", f"dh={c['Dh']}", f"q_proj={c['q_proj']}",
                          f"kb={b(c['kb'])}", f"vb={b(c['vb'])}", f"s={fbits(f32(c['s']))}",
                          "sdpa_scale=" + {"default": "none", "custom": fbits(f32(0.3)), "none": fbits(1.0)}[c["sdpa_scale"]],
-                         f"mask={b(c['mask'])}"])
+                         f"mask={b(c['mask'] or c.get('mask1d'))}", f"mask1d={b(c.get('mask1d'))}"])
 
     @staticmethod
     def fuse(model):
@@ -1637,12 +1657,22 @@ class Pipe:
         return f"{n['sdpa']}/{n['mha1'] + n['mha2']}/{n['mha_scale']}/{n['mha_bias']}/{n['attention']}"
 
     @staticmethod
+    def canon(c, obs):
+        """In the branch where the MHA rules refuse, only the counts and the attributes of the node that
+        `replace_sdpa_by_mha` emits are tied (its operands are Reshape/Transpose chains the final optimize reshuffles)."""
+        if c.get("mask1d"):
+            import re
+
+            return re.sub(r"\(([^()]*)\)->", "(*)->", obs)
+        return obs
+
+    @staticmethod
     def feeds(c, rng):
         B, S, H, Dh = c["B"], c["S"], c["H"], c["Dh"]
         D = H * Dh
         return {"qm": rand_arr(rng, [B, S, D], "f32"), "km": rand_arr(rng, [B, S, D], "f32"), "vm": rand_arr(rng, [B, S, D], "f32"),
                 "qbias": rand_arr(rng, [D], "f32"), "kbias": rand_arr(rng, [D], "f32"), "vbias": rand_arr(rng, [D], "f32"),
-                "mask": rand_arr(rng, [1, 1, S, S], "f32")}
+                "mask": rand_arr(rng, [S] if c.get("mask1d") else [1, 1, S, S], "f32")}
 
     @staticmethod
     def out_dt(c):
